@@ -45,7 +45,7 @@ func init() { streamVerdicts["C12"] = c12Verdict }
 // its stream, judged on the producer output alone by an independent reader.
 func TestC12(t *testing.T) {
 	rec := kit.Get("C12")
-	rapid.Check(t, func(t *rapid.T) {
+	runRapid(t, func(t *rapid.T) {
 		o := genOptions(t, rec)
 		genExtraOptions(t, &o, false)
 		plan := historyPlan{MinBatches: 1, MaxBatches: 10, Interleave: true, Knobs: gen.InDomain()}
@@ -83,7 +83,7 @@ func TestC12(t *testing.T) {
 			plan.Interleave = false
 			o.Dict = rapid.SampledFrom([]string{"u32", "", "u16", "u64"}).Draw(t, "bigdict")
 		}
-		c, _ := genOptionHistory(t, plan)
+		c, gs := genOptionHistory(t, plan)
 		c.Options = o
 		res, err := RunStream(c, RunConfig{KeepBAR: true})
 		if err != nil {
@@ -103,6 +103,9 @@ func TestC12(t *testing.T) {
 		}
 		if long {
 			labels = append(labels, "long_history_12_to_30_batches")
+		}
+		if gs.Stats["payload_over_1MiB"] > 0 {
+			labels = append(labels, "payload_over_1MiB_then_same_schema")
 		}
 		if big {
 			labels = append(labels, "history_crossing_65535")
